@@ -112,15 +112,15 @@ End Frame.
 Definition built (nv : list variant) (e : vprog) : Prop :=
   vid e < length nv /\ e = build_var_progress (nth (vid e) nv dummy) (vid e).
 
-Lemma initial_vp (nv : list variant) :
+Lemma initial_vp (nv : list variant) (sym : bool) :
   sorted_pos (index_from 0 nv) ->
-  let vp := map (fun j => build_var_progress (nth j nv (mkVar 0 [] [])) j) (non_overlapping (index_from 0 nv) [] None) in
+  let vp := map (fun j => build_var_progress (nth j nv (mkVar 0 [] [])) j) (non_overlapping sym (index_from 0 nv) [] None) in
   Forall (built nv) vp /\ sorted_vp nv vp.
 Proof.
 intros Hs vp.
 assert (Hidx : forall j v, In (j, v) (index_from 0 nv) -> nth_error nv j = Some v).
 { intros j0 v0 H0. destruct (index_from_spec nv 0 j0 v0 H0) as [_ H1]. now rewrite Nat.sub_0_r in H1. }
-destruct (non_overlapping_props nv (index_from 0 nv) [] None Hidx Hs) as [Hval Hsorted].
+destruct (non_overlapping_props nv sym (index_from 0 nv) [] None Hidx Hs) as [Hval Hsorted].
 split; [|apply sorted_vp_map; exact Hsorted].
 unfold vp. rewrite Forall_map, Forall_forall. intros j0 Hj0. destruct (Hval j0 Hj0) as (v0 & Hv0).
 pose proof (Hidx _ _ Hv0) as Hn0. split; [|reflexivity]. cbn [build_var_progress vid].
@@ -414,8 +414,8 @@ assert (Hkill : forall pre0 op len rest, cig = pre0 ++ (op, len) :: rest -> queu
         { apply (unit_of_position cig pre OpD (repeat OpD n ++ post) pre0 op len rest He eq_refl Hwh (is_match_ref_unit _ Hm)); lia. }
         rewrite E in Hm. discriminate. }
 unfold detect_noref in Hin. fold nv in Hin.
-destruct (initial_vp nv Hs) as [Hb Hsv]. cbv zeta in Hb, Hsv.
-set (vp := map (fun j => build_var_progress (nth j nv (mkVar 0 [] [])) j) (non_overlapping (index_from 0 nv) [] None)) in *.
+destruct (initial_vp nv (r_sym_noref R) Hs) as [Hb Hsv]. cbv zeta in Hb, Hsv.
+set (vp := map (fun j => build_var_progress (nth j nv (mkVar 0 [] [])) j) (non_overlapping (r_sym_noref R) (index_from 0 nv) [] None)) in *.
 assert (Hff : Forall (fresh_entry nv) vp) by (eapply Forall_impl; [|exact Hb]; apply built_fresh).
 destruct (skip_progress_spec nv vp start Hff Hsv) as (dropped & Hd & _).
 assert (Hb1 : Forall (built nv) (skip_progress nv vp start)) by (rewrite Hd in Hb; apply Forall_app in Hb; apply Hb).
@@ -431,9 +431,9 @@ Qed.
    the remaining case: the read shows the insertion => REF is not reported *)
 
 (* --- the ids kept by detect_non_overlapping_variants have pairwise distinct positions *)
-Lemma non_overlapping_fresh_pos (nv : list variant) : forall (vs : list ivar) seen skip,
+Lemma non_overlapping_fresh_pos (nv : list variant) (sym : bool) : forall (vs : list ivar) seen skip,
   (forall j v, In (j, v) vs -> nth_error nv j = Some v) ->
-  forall j, In j (non_overlapping vs seen skip) -> ~ In (vpos (nth j nv dummy)) seen.
+  forall j, In j (non_overlapping sym vs seen skip) -> ~ In (vpos (nth j nv dummy)) seen.
 Proof.
 induction vs as [|[j v] rest IH]; intros seen skip Hnth j0 Hin; [contradiction|].
 assert (Hnth' : forall j v, In (j, v) rest -> nth_error nv j = Some v) by (intros; apply Hnth; now right).
@@ -444,9 +444,10 @@ destruct (existsb (Nat.eqb (vpos v)) seen) eqn:Ex; [now apply (IH seen None)|].
 assert (Hnotin : ~ In (vpos v) seen).
 { intros H. assert (existsb (Nat.eqb (vpos v)) seen = true); [|congruence].
   apply existsb_exists. exists (vpos v). split; [exact H|apply Nat.eqb_refl]. }
-assert (Hrec : forall sk, In j0 (non_overlapping rest (vpos v :: seen) sk) -> ~ In (vpos (nth j0 nv dummy)) seen).
+assert (Hrec : forall sk, In j0 (non_overlapping sym rest (vpos v :: seen) sk) -> ~ In (vpos (nth j0 nv dummy)) seen).
 { intros sk H0 H1. apply (IH (vpos v :: seen) sk Hnth' j0 H0). now right. }
 assert (Hhead : j0 = j -> ~ In (vpos (nth j0 nv dummy)) seen) by (intros ->; now rewrite Hv).
+destruct (sym && is_symbolic v); [now apply (Hrec None)|].
 destruct (length (valt v) <? length (vref v)).
 - destruct rest as [|[j1 v1] rest1] eqn:Er.
   + destruct Hin as [<-|[]]. now apply Hhead.
@@ -461,24 +462,25 @@ Fixpoint strict_ids (nv : list variant) (l : list nat) : Prop :=
   | j :: r => Forall (fun j' => vpos (nth j nv dummy) < vpos (nth j' nv dummy)) r /\ strict_ids nv r
   end.
 
-Lemma non_overlapping_strict (nv : list variant) : forall (vs : list ivar) seen skip,
+Lemma non_overlapping_strict (nv : list variant) (sym : bool) : forall (vs : list ivar) seen skip,
   (forall j v, In (j, v) vs -> nth_error nv j = Some v) -> sorted_pos vs ->
-  strict_ids nv (non_overlapping vs seen skip).
+  strict_ids nv (non_overlapping sym vs seen skip).
 Proof.
 induction vs as [|[j v] rest IH]; intros seen skip Hnth Hs; [exact I|].
 assert (Hnth' : forall j v, In (j, v) rest -> nth_error nv j = Some v) by (intros; apply Hnth; now right).
 assert (Hv : nth j nv dummy = v) by (apply nth_error_nth, Hnth; now left).
 destruct Hs as [Hall Hs].
-assert (Hkeep : forall sk, strict_ids nv (j :: non_overlapping rest (vpos v :: seen) sk)).
+assert (Hkeep : forall sk, strict_ids nv (j :: non_overlapping sym rest (vpos v :: seen) sk)).
 { intros sk. cbn [strict_ids]. split; [|now apply IH]. rewrite Forall_forall. intros j' Hj'.
-  destruct (non_overlapping_props nv rest (vpos v :: seen) sk Hnth' Hs) as [Hval _].
+  destruct (non_overlapping_props nv sym rest (vpos v :: seen) sk Hnth' Hs) as [Hval _].
   destruct (Hval j' Hj') as (v' & Hv'). rewrite Forall_forall in Hall. specialize (Hall _ Hv'). cbn [snd] in Hall.
-  pose proof (non_overlapping_fresh_pos nv rest (vpos v :: seen) sk Hnth' j' Hj') as Hf.
+  pose proof (non_overlapping_fresh_pos nv sym rest (vpos v :: seen) sk Hnth' j' Hj') as Hf.
   rewrite Hv. rewrite (nth_error_nth nv j' dummy (Hnth' j' v' Hv')) in *.
   assert (vpos v' <> vpos v) by (intros E; apply Hf; left; now symmetry). lia. }
 cbn [non_overlapping].
 destruct (match skip with Some d => vpos v <? d | None => false end); [now apply IH|].
 destruct (existsb (Nat.eqb (vpos v)) seen); [now apply IH|].
+destruct (sym && is_symbolic v); [now apply IH|].
 destruct (length (valt v) <? length (vref v)); [|apply Hkeep].
 destruct rest as [|[j1 v1] rest1] eqn:Er.
 - cbn. split; [constructor|exact I].
@@ -507,9 +509,9 @@ induction vp as [|e r IH]; [auto|]. intros [Hall Hs]. split; [|auto].
 eapply Forall_impl; [|exact Hall]. cbn. intros; lia.
 Qed.
 
-Lemma initial_vp_strict (nv : list variant) :
+Lemma initial_vp_strict (nv : list variant) (sym : bool) :
   sorted_pos (index_from 0 nv) ->
-  strict_vp nv (map (fun j => build_var_progress (nth j nv (mkVar 0 [] [])) j) (non_overlapping (index_from 0 nv) [] None)).
+  strict_vp nv (map (fun j => build_var_progress (nth j nv (mkVar 0 [] [])) j) (non_overlapping sym (index_from 0 nv) [] None)).
 Proof.
 intros Hs. apply strict_vp_map, non_overlapping_strict; [|exact Hs].
 intros j0 v0 H0. destruct (index_from_spec nv 0 j0 v0 H0) as [_ H1]. now rewrite Nat.sub_0_r in H1.
@@ -999,9 +1001,9 @@ cbn [allele_units] in HV. destruct HV as (M & _ & HMl & HVe). rewrite Hr in HMl,
 destruct M; [|discriminate]. rewrite Nat.sub_0_r in HVe. cbn [repeat app] in HVe. rewrite app_nil_r in HVe. subst V.
 destruct Hfl as [(P & m1 & -> & Hm1) (m2 & Q & -> & Hm2)].
 unfold detect_noref in Hin. fold nv in Hin.
-destruct (initial_vp nv Hs) as [Hb Hsv]. cbv zeta in Hb, Hsv.
-pose proof (initial_vp_strict nv Hs) as Hst.
-set (vp := map (fun j => build_var_progress (nth j nv (mkVar 0 [] [])) j) (non_overlapping (index_from 0 nv) [] None)) in *.
+destruct (initial_vp nv (r_sym_noref R) Hs) as [Hb Hsv]. cbv zeta in Hb, Hsv.
+pose proof (initial_vp_strict nv (r_sym_noref R) Hs) as Hst.
+set (vp := map (fun j => build_var_progress (nth j nv (mkVar 0 [] [])) j) (non_overlapping (r_sym_noref R) (index_from 0 nv) [] None)) in *.
 assert (Hff : Forall (fresh_entry nv) vp) by (eapply Forall_impl; [|exact Hb]; apply built_fresh).
 destruct (skip_progress_spec nv vp start Hff Hsv) as (dropped & Hd & _).
 assert (Hb1 : Forall (built nv) (skip_progress nv vp start)) by (rewrite Hd in Hb; apply Forall_app in Hb; apply Hb).
@@ -1078,8 +1080,8 @@ Proof.
 intros R Hspan variants start cig query quals j a q v Hs Hin Hn.
 set (nv := map normalized variants) in *.
 unfold detect_noref in Hin. fold nv in Hin.
-destruct (initial_vp nv Hs) as [Hb Hsv]. cbv zeta in Hb, Hsv.
-set (vp := map (fun j => build_var_progress (nth j nv (mkVar 0 [] [])) j) (non_overlapping (index_from 0 nv) [] None)) in *.
+destruct (initial_vp nv (r_sym_noref R) Hs) as [Hb Hsv]. cbv zeta in Hb, Hsv.
+set (vp := map (fun j => build_var_progress (nth j nv (mkVar 0 [] [])) j) (non_overlapping (r_sym_noref R) (index_from 0 nv) [] None)) in *.
 assert (Hff : Forall (fresh_entry nv) vp) by (eapply Forall_impl; [|exact Hb]; apply built_fresh).
 destruct (skip_progress_spec nv vp start Hff Hsv) as (dropped & Hd & _).
 assert (Hb1 : Forall (built nv) (skip_progress nv vp start)) by (rewrite Hd in Hb; apply Forall_app in Hb; apply Hb).
@@ -1088,4 +1090,85 @@ pose proof (span_frame R Hspan query quals nv start cig cig [] (skip_progress nv
               (Forall_nil _) (j, a, q)) as Hg.
 cbn [expand flat_map ref_units query_units fold_right fst] in Hg. rewrite Nat.add_0_r in Hg.
 specialize (Hg Hin). rewrite (nth_error_nth nv j dummy Hn) in Hg. exact Hg.
+Qed.
+
+(* --- without reference, symbolic records are left out (fix b8437fb) *)
+Lemma non_overlapping_not_symbolic : forall (vs : list ivar) seen skip j,
+  In j (non_overlapping true vs seen skip) -> exists v, In (j, v) vs /\ is_symbolic v = false.
+Proof.
+induction vs as [|[j0 v0] rest IH]; intros seen skip j Hin; [contradiction|].
+assert (Hrec : forall seen' skip', In j (non_overlapping true rest seen' skip') ->
+                 exists v, In (j, v) ((j0, v0) :: rest) /\ is_symbolic v = false).
+{ intros seen' skip' H. destruct (IH _ _ _ H) as (v & Hv & Hs). exists v. split; [now right|exact Hs]. }
+cbn [non_overlapping] in Hin.
+destruct (match skip with Some d => vpos v0 <? d | None => false end); [now apply (Hrec seen skip)|].
+destruct (existsb (Nat.eqb (vpos v0)) seen); [now apply (Hrec seen None)|].
+destruct (is_symbolic v0) eqn:Es; cbn [andb] in Hin; [now apply (Hrec (vpos v0 :: seen) None)|].
+assert (Hhead : j = j0 -> exists v, In (j, v) ((j0, v0) :: rest) /\ is_symbolic v = false).
+{ intros ->. exists v0. split; [now left|exact Es]. }
+destruct (length (valt v0) <? length (vref v0)).
+- destruct rest as [|[j1 v1] rest1] eqn:Er.
+  + destruct Hin as [<-|[]]. now apply Hhead.
+  + destruct (vpos v1 <? vpos v0 + length (vref v0)); [now apply (Hrec (vpos v0 :: seen) (Some (vpos v0 + length (vref v0))))|].
+    destruct Hin as [<-|Hin]; [now apply Hhead|now apply (Hrec (vpos v0 :: seen) None)].
+- destruct Hin as [<-|Hin]; [now apply Hhead|now apply (Hrec (vpos v0 :: seen) None)].
+Qed.
+
+Section FromValid.
+Variable R : rules.
+Variables (query quals : list Z) (nv : list variant) (start : nat) (whole : cigar) (valid : list nat).
+
+Lemma valid_frame : forall cig pre vp queue flank,
+  whole = pre ++ cig -> Forall (fun e => built nv e /\ In (vid e) valid) vp -> sorted_vp nv vp ->
+  Forall (fun e => In (vid e) valid) queue ->
+  forall y, In y (detect_loop R cig query quals nv vp queue flank
+                              (start + ref_units (expand pre)) (query_units (expand pre))) ->
+  In (fst (fst y)) valid.
+Proof.
+apply (frame R query quals nv start whole (fun _ e => In (vid e) valid) (fun e => built nv e /\ In (vid e) valid)
+             (fun y => In (fst (fst y)) valid)).
+- intros e [He _]. now apply built_fresh.
+- auto.
+- intros pre op len rest e _ _ He. now rewrite handle_vid.
+- intros pre op len rest e _ _ [_ He] _ _ _. now rewrite handle_vid.
+- intros _ e y He Hy. unfold verdict in Hy.
+  destruct (existsb is_pending (alleles e)); [discriminate|].
+  destruct (best_resolved 0 (alleles e) None) as [[i a]|]; [|discriminate]. injection Hy as <-. exact He.
+Qed.
+
+End FromValid.
+
+Theorem detect_noref_skips_symbolic_current : detect_noref_skips_symbolic_statement current_rules.
+Proof.
+intros variants start cig query quals j a q v Hs Hin Hn.
+set (nv := map normalized variants) in *.
+unfold detect_noref in Hin. fold nv in Hin. cbn [r_sym_noref current_rules] in Hin.
+destruct (initial_vp nv true Hs) as [Hb Hsv]. cbv zeta in Hb, Hsv.
+set (valid := non_overlapping true (index_from 0 nv) [] None) in *.
+set (vp := map (fun j => build_var_progress (nth j nv (mkVar 0 [] [])) j) valid) in *.
+assert (Hbv : Forall (fun e => built nv e /\ In (vid e) valid) vp).
+{ rewrite Forall_forall. intros e He. split; [rewrite Forall_forall in Hb; now apply Hb|].
+  unfold vp in He. apply in_map_iff in He as (j0 & <- & Hj0). exact Hj0. }
+assert (Hff : Forall (fresh_entry nv) vp) by (eapply Forall_impl; [|exact Hb]; apply built_fresh).
+destruct (skip_progress_spec nv vp start Hff Hsv) as (dropped & Hd & _).
+assert (Hb1 : Forall (fun e => built nv e /\ In (vid e) valid) (skip_progress nv vp start))
+  by (rewrite Hd in Hbv; apply Forall_app in Hbv; apply Hbv).
+assert (Hs1 : sorted_vp nv (skip_progress nv vp start)) by (rewrite Hd in Hsv; eapply sorted_vp_app; eauto).
+pose proof (valid_frame current_rules query quals nv start cig valid cig [] (skip_progress nv vp start) [] false eq_refl
+              Hb1 Hs1 (Forall_nil _) (j, a, q)) as Hg.
+cbn [expand flat_map ref_units query_units fold_right fst] in Hg. rewrite Nat.add_0_r in Hg.
+specialize (Hg Hin). destruct (non_overlapping_not_symbolic _ _ _ _ Hg) as (v' & Hv' & Hsym).
+destruct (index_from_spec nv 0 j v' Hv') as [_ H1]. rewrite Nat.sub_0_r in H1. rewrite Hn in H1. injection H1 as <-. exact Hsym.
+Qed.
+
+(* the code as it was: GATCAGTC, record (3, C, <DEL>), read GATCAGTC 8M -> REF reported for the symbolic record *)
+Theorem detect_noref_skips_symbolic_original_refuted : ~ detect_noref_skips_symbolic_statement original_rules.
+Proof.
+intros H.
+specialize (H [mkVar 3 [67]%Z [60;68;69;76;62]%Z] 0 [(OpM, 8)] [71;65;84;67;65;71;84;67]%Z [] 0 0 30
+              (mkVar 3 [67]%Z [60;68;69;76;62]%Z)).
+assert (Hc : true = false -> False) by discriminate.
+apply Hc, H; try (vm_compute; reflexivity).
+- vm_compute. split; constructor.
+- vm_compute. now left.
 Qed.
